@@ -167,6 +167,22 @@ def main(argv=None):
         else:
             violations.append({"signature": sig, "replay": path, "input": inp, "count": f["count"], "detail": cex["detail"]})
 
+    second_opinion = None
+    if prop == "C04" and args.tier == "thorough" and not args.only:
+        # an independent engine (CrossHair) on the smallest kernel; a counterexample there while sx passed = disagreement
+        import subprocess
+
+        try:
+            r = subprocess.run([sys.executable, "-m", "crosshair", "check", "--report_all", "--per_condition_timeout", "90", os.path.join(ROOT, "second_opinion", "tokens_roundtrip.py")],
+                               capture_output=True, text=True, timeout=400, cwd=ROOT)
+            out = (r.stdout + r.stderr).strip().splitlines()
+            second_opinion = {"engine": "crosshair-tool", "kernel": "tokens.create round trip, len(s) <= 1", "output": out[-3:]}
+            if any("error:" in ln and "false when calling" in ln.lower() for ln in out) or any("counterexample" in ln.lower() for ln in out):
+                harness_errors.append("CrossHair reports a counterexample for the tokenizer round trip that sx did not find: %s" % out[-3:])
+        except Exception as e:  # crosshair not installed / timeout: recorded, not a verdict
+            second_opinion = {"engine": "crosshair-tool", "skipped": repr(e)[:200]}
+        print("second opinion (CrossHair):", second_opinion)
+
     wall = time.time() - t0
     tot_paths = sum(r["paths"] for r in per_h)
     tot_dis = sum(r["vc_discharged_unsat"] for r in per_h)
@@ -205,6 +221,7 @@ def main(argv=None):
             "violations": violations,
             "harness_errors": harness_errors,
             "engine_selftest": st_msg,
+            "second_opinion": second_opinion,
         },
         "assumptions": sorted(set(sum([list(h.assumptions) for h in hs], []))) + ["z3 %s and CPython %s are trusted" % (__import__("z3").get_version_string(), sys.version.split()[0])],
         "wall_s": round(wall, 2),
